@@ -14,7 +14,9 @@ from props.graphfacts import conclude, replay  # noqa: F401
 
 THEOREMS = ["Rva.runLints_nil_iff", "Rva.saveToZero_silent", "Rva.invalidSegment_silent",
             "Rva.unknownEcall_silent", "Rva.run_clean_iff", "Rva.sortDiags_nil_iff",
-            "Rva.deadValue_silent", "Rva.lostRegister_silent", "Rva.controlFlow_silent", "Rva.garbageRead_silent"]
+            "Rva.deadValue_silent", "Rva.lostRegister_silent", "Rva.controlFlow_silent", "Rva.garbageRead_silent",
+            "Rva.stack_silent", "Rva.overlapping_silent", "Rva.calleeSaved_silent", "Rva.garbageInput_silent",
+            "Rva.lints_silent_iff"]
 
 
 def monitor(src, blk, rng):
@@ -44,7 +46,7 @@ def monitor(src, blk, rng):
 
 def run(res, tier, seed):
     rng = random.Random(seed)
-    proof_ok = proof_stage(res, "Rva.Proofs.C05b", THEOREMS, extra_modules=["Rva.Proofs.C04", "Rva.Proofs.C05"])
+    proof_ok = proof_stage(res, "Rva.Proofs.C04b", THEOREMS, extra_modules=["Rva.Proofs.C04", "Rva.Proofs.C05", "Rva.Proofs.C05b"])
     n = 150 if tier == "quick" else 3000
     srcs, agg = [], {}
     for _ in range(n):
